@@ -17,29 +17,39 @@ Section RangeTotal.
     let s := into_text t in
     let len := byte_len s in
     (on_boundary s a \/ len <= a) -> (on_boundary s b \/ len <= b) -> a <= b ->
-    swfc t = true ->
+    (forall node, range_node t a b = Some node -> erroneous node = false -> swfc node = true) ->
     format_range swidth cfg t a b = RErr \/ exists r1 r2 out, format_range swidth cfg t a b = ROk r1 r2 out.
   Proof.
     intros s len Ha Hb Hle Hw.
     destruct (range_arithmetic_total t a b Ha Hb Hle) as (x & rs & re & _ & Ht & _).
     subst s len. unfold format_range. cbv zeta. rewrite Ht.
     destruct (cover t 0 LMarkup None rs (N.min re (byte_len (into_text t)))) as [[[[node off] m] p]|] eqn:Ec; [|left; reflexivity].
-    destruct (erroneous node); [left; reflexivity|]. right.
+    destruct (erroneous node) eqn:Eerr; [left; reflexivity|]. right.
     destruct (cover_sound _ _ _ _ _ _ _ _ _ _ Ec) as (_ & _ & Hcov & Hsub).
-    pose proof (swfc_subtree _ _ _ _ Hsub Hw) as Hwn. rewrite <- swfc_annotate in Hwn.
+    assert (Hwn : swfc node = true).
+    { apply Hw; [|exact Eerr]. unfold range_node. cbv zeta. rewrite Ht, Ec. reflexivity. }
+    rewrite <- swfc_annotate in Hwn.
     set (bundle := build swidth cfg (annotate node)).
     set (cx := mk_ctx m (is_math_mode m && negb (kind_eqb (kind_of node) KEquation))).
     assert (Hm : exists d cnt,
                run_m (if kind_eqb (kind_of node) KMarkup then call bundle (RMarkup cx ScDocument)
-                      else if is_expr node then call bundle (RExpr cx)
+                      else if is_expr node then
+                        match p with
+                        | Some KMarkup | Some KMath => call bundle (RExprEmb cx)
+                        | _ => call bundle (RExpr cx)
+                        end
                       else call bundle (RPattern cx)) = Ok (d, cnt)).
     { unfold run_m, bundle.
       destruct (kind_eqb (kind_of node) KMarkup) eqn:Ek.
       - destruct (conversions_total swidth cfg (annotate node) (RMarkup cx ScDocument) 0 Hwn I) as (d & n' & E & _). eauto.
       - destruct (is_expr node) eqn:Ee.
-        + assert (Hr : sreq_ok (build swidth cfg (annotate node)) (RExpr cx)).
-          { cbn [sreq_ok]. rewrite bt_build. unfold is_expr in *. rewrite kind_of_annotate. exact Ee. }
-          destruct (conversions_total swidth cfg (annotate node) _ 0 Hwn Hr) as (d & n' & E & _). eauto.
+        + assert (Hr : is_expr (bt (build swidth cfg (annotate node))) = true).
+          { rewrite bt_build. unfold is_expr in *. rewrite kind_of_annotate. exact Ee. }
+          assert (H1 : exists d cnt, call (build swidth cfg (annotate node)) (RExpr cx) 0 = Ok (d, cnt)).
+          { destruct (conversions_total swidth cfg (annotate node) (RExpr cx) 0 Hwn Hr) as (d & n' & E & _). eauto. }
+          assert (H2 : exists d cnt, call (build swidth cfg (annotate node)) (RExprEmb cx) 0 = Ok (d, cnt)).
+          { destruct (conversions_total swidth cfg (annotate node) (RExprEmb cx) 0 Hwn Hr) as (d & n' & E & _). eauto. }
+          destruct p as [pk|]; [|exact H1]. destruct pk; first [exact H1|exact H2].
         + assert (Hr : sreq_ok (build swidth cfg (annotate node)) (RPattern cx)).
           { cbn [sreq_ok]. rewrite bt_build. unfold is_pattern. rewrite kind_of_annotate.
             unfold coverable in Hcov. apply andb_prop in Hcov. destruct Hcov as [_ Hcov].
@@ -51,3 +61,23 @@ Section RangeTotal.
     eauto.
   Qed.
 End RangeTotal.
+
+(* in particular when the whole tree conforms *)
+Lemma range_node_subtree t a b node : range_node t a b = Some node -> exists o, subtree_at t 0 node o.
+Proof.
+  unfold range_node. cbv zeta.
+  destruct (trim_range _ _ _) as [[rs re]|]; [|discriminate].
+  destruct (cover t 0 LMarkup None rs _) as [[[[n off] m] p]|] eqn:Ec; [|discriminate].
+  intros H. inversion H; subst. destruct (cover_sound _ _ _ _ _ _ _ _ _ _ Ec) as (_ & _ & _ & Hsub). eauto.
+Qed.
+
+Corollary format_range_total_whole swidth cfg t a b :
+  let s := into_text t in
+  let len := byte_len s in
+  (on_boundary s a \/ len <= a) -> (on_boundary s b \/ len <= b) -> a <= b ->
+  swfc t = true ->
+  format_range swidth cfg t a b = RErr \/ exists r1 r2 out, format_range swidth cfg t a b = ROk r1 r2 out.
+Proof.
+  intros s len Ha Hb Hle Hw. apply format_range_total; try assumption.
+  intros node Hn _. destruct (range_node_subtree _ _ _ _ Hn) as (o & Hsub). apply (swfc_subtree _ _ _ _ Hsub Hw).
+Qed.
